@@ -640,6 +640,7 @@ class ConcurrentVector {
    **/
   template <typename... Args>
   iterator emplace_back(Args&&... args) {
+    DISPENSO_VERIF_POINT("EbFaa", this);
     auto index = size_.fetch_add(1, std::memory_order_relaxed);
     auto binfo = bucketAndSubIndex(index);
 
@@ -730,6 +731,7 @@ class ConcurrentVector {
    * @return The iterator to the nth element.
    **/
   iterator grow_to_at_least(size_type n) {
+    DISPENSO_VERIF_POINT("GtLd", this);
     size_t curSize = size_.load(std::memory_order_relaxed);
     if (curSize < n) {
       return grow_by(n - curSize);
@@ -745,6 +747,7 @@ class ConcurrentVector {
    * @return The iterator to the nth element.
    **/
   iterator grow_to_at_least(size_type n, const T& t) {
+    DISPENSO_VERIF_POINT("GtLd", this);
     size_t curSize = size_.load(std::memory_order_relaxed);
     if (curSize < n) {
       return grow_by(n - curSize, t);
@@ -845,6 +848,7 @@ class ConcurrentVector {
    * still the users responsibility to avoid racing on the element itself.
    **/
   iterator end() {
+    DISPENSO_VERIF_POINT("EndLdSize", this);
     size_t curSize = size_.load(std::memory_order_relaxed);
     auto binfo = bucketAndSubIndex(curSize);
     return {this, curSize, binfo};
@@ -970,6 +974,7 @@ class ConcurrentVector {
    * with this call.
    **/
   size_type size() const {
+    DISPENSO_VERIF_POINT("SzLd", this);
     return size_.load(std::memory_order_relaxed);
   }
 
@@ -1079,6 +1084,7 @@ class ConcurrentVector {
   }
 
   iterator growByUninitialized(size_type delta) {
+    DISPENSO_VERIF_POINT("GbFaa", this);
     auto index = size_.fetch_add(delta, std::memory_order_relaxed);
     auto binfo = bucketAndSubIndex(index);
     auto bend = bucketAndSubIndex(index + delta);
